@@ -9,20 +9,6 @@ import (
 	"github.com/karagenc/socket.io-go/engine.io/transport/polling"
 )
 
-func verifNumbered(n byte) *parser.Packet {
-	return &parser.Packet{Type: parser.PacketTypeMessage, Data: []byte{'m', n}}
-}
-
-func verifCountNumbered(ps []*parser.Packet, n byte) int {
-	c := 0
-	for _, p := range ps {
-		if p.Type == parser.PacketTypeMessage && len(p.Data) == 2 && p.Data[0] == 'm' && p.Data[1] == n {
-			c++
-		}
-	}
-	return c
-}
-
 // C07_swap_server: the server-side transport swap. Old transport = the REAL long-polling transport, new = a recording
 // one. One goroutine sends two numbered messages through the socket, one runs the real upgradeTo, one plays a poll request
 // that is pending on the old transport, under all interleavings at synchronisation points. Every message is delivered
